@@ -108,6 +108,9 @@ PSeqOK(es) == /\ es[1].k # "s"
 PSeqs(z) == { es \in UNION { [1..n -> PItems] : n \in 1..(IF Tier = "quick" THEN 2 ELSE 3) } : PSeqOK(es) }
             \cup { [i \in 1..n |-> PW("a")] : n \in {15, 16, 17, 18, 22} }            \* long integer parts
             \cup { <<PW("a"), PD>> \o [i \in 1..n |-> PW("ab")] : n \in {15, 17, 20} }
+            \* suffixes without a word before them (after a period), several in a row: each is a word of its own
+            \cup { <<PW("a"), PD, PS("-top"), PS("-and")>>, <<PW("a"), PD, PS("-top"), PS("-and"), PW("it")>>, <<PW("a"), PD, PS("-top"), PS("'s"), PS("-and")>>,
+                   <<PW("it"), PS("-top"), PS("-and"), PS("'s"), PD, PS("-top"), PS("-top")>> }
 PoeticTrees(z) == { << <<SPNum(0, X, PLit(es))>> >> : es \in PSeqs(z) }
              \cup { << <<SRock(0, X, <<PLit(es)>>)>> >> : es \in { q \in PSeqs(z) : Len(q) <= 2 } }
              \cup { << <<SPStr(0, X, t), Say(X)>> >> : t \in { "hello", " lead", "trail  ", "a, b. c! (d) \"e\" 'f' 5 is nothing", "~t~ \t x", "", "it's a \"quoted (thing)\" here",
@@ -153,9 +156,19 @@ CliCorpus(z) == {
   \* the character undetermined, the binary must still print what the library prints); three mentions in a row on one line
   [tree |-> << <<Put(N(10), "x"), SMut(0, "cast", X, ENone, ENone), Say(B("plus", B("plus", S("header"), X), S(RepStrG("0123456789abcdef", 100))))>> >>, inp |-> <<>>],
   [tree |-> << <<Put(N(1), "x"), Put(B("plus", B("plus", X, X), X), "y"), Say(Y), Say(B("times", Y, Y))>> >>, inp |-> <<>>],
-  [tree |-> << <<SPStr(0, X, "some text  "), Say(X), SMut(0, "cut", X, ENone, S(" ")), Say(X), Say(Idx(X, N(1)))>> >>, inp |-> <<>>]
+  [tree |-> << <<SPStr(0, X, "some text  "), Say(X), SMut(0, "cut", X, ENone, S(" ")), Say(X), Say(Idx(X, N(1)))>> >>, inp |-> <<>>],
+  \* a run-time error that quotes a long value made of two-byte characters (the message is the library's, whatever its length)
+  [tree |-> << <<Say(S("go")), SListen(0, X), SMut(0, "cast", X, ENone, ENone), Say(X)>> >>, inp |-> <<"x" \o RepStrG("~", 60) \o NL>>],
+  [tree |-> << <<Say(S("go")), SListen(0, X), Say(B("minus", X, N(1)))>> >>, inp |-> <<RepStrG("~", 70) \o NL>>],
+  \* a call chain 700 activations deep (the library runs it; so must the tool)
+  [tree |-> << <<SFunc(0, "f", <<"p">>, <<SIf(0, B("eq", Var("p"), N(0)), <<SReturn(0, S("bottom"))>>, FALSE, <<>>),
+                                         Put(B("minus", Var("p"), N(1)), "z"), SReturn(0, Call("f", <<Z>>))>>)>>,
+               <<Say(S("start")), Say(Call("f", <<N(700)>>)), Say(S("end"))>> >>, inp |-> <<>>, norun |-> TRUE]
 }
-CliCases(z) == { LET nm == Naming(0) r == Render(<<>>, nm, cc.tree) fin == RunAll(Init0(cc.tree, cc.inp, -1, 0)) IN
+(* (norun: the model does not run the program itself - a call chain hundreds of activations deep is slow to step through -, the   *)
+(* library's own run is the reference for the tool)                                                                                *)
+CliCases(z) == { LET nm == Naming(0) r == Render(<<>>, nm, cc.tree)
+                     fin == IF "norun" \in DOMAIN cc THEN [out |-> "", st |-> "unspec"] ELSE RunAll(InitQuiet(cc.tree, cc.inp, -1, 0)) IN
                  [k |-> "cli", text |-> r.text, inp |-> cc.inp, out |-> fin.out, st |-> fin.st] : cc \in CliCorpus(z) }
 LoadCli == /\ c.k = "init" /\ Family = "cli"
            /\ c' \in CliCases(0)
